@@ -52,6 +52,38 @@ def c_action(ctx, args):
     return None
 
 
+def c_placed(ctx, args):
+    """the named gate placed in a register THROUGH A CIRCUIT -- uncompiled, layer-compiled, fully compiled, a copy of the compiled circuit, the general Circuit class;
+    alone or next to a second gate on other qubits -- conjugates every operand by the same textbook unitary, forward and backward"""
+    nm, qs, N, mode, neighbour = args
+    NPm = impl('np')
+    l = [[r[0], 0] for r in gen.identity_rows(N)] + [[[1] * (2 * N), 1]]
+    U = cnot(qs[0], qs[1], N) if nm == 5 else place1(U1[nm], qs[0], N)
+    prog = [[0, [qs, [2, nm]]]]
+    free = [q for q in range(N) if q not in qs]
+    if neighbour and free:
+        prog.append([0, [[free[-1]], [2, 0]]])                 # a Hadamard on another qubit: same layer, commutes
+        U = place1(U1[0], free[-1], N) @ U
+    c = NPm.build_circuit(N, prog, cls='Circuit' if mode == 'general' else 'CliffordCircuit')
+    if mode == 'layers':
+        for ly in c.layers_forward():
+            if hasattr(ly, 'compile'):
+                ly.compile(N)
+    elif mode in ('compiled', 'compiled_copy', 'general'):
+        c.compile()
+    if mode == 'compiled_copy':
+        c = c.copy()
+    got = NPm.oPL(c.forward(NPm.PL(l)))
+    for a, b in zip(l, got):
+        if not np.allclose(D.op(*b), U @ D.op(*a) @ U.conj().T):
+            return {'kind': 'oracle', 'where': 'np:named gate %d on %s in a %s circuit (forward)' % (nm, qs, mode), 'observed': b, 'expected': 'U P U^dagger', 'operand': a, 'tags': ['placed', mode]}
+    back = NPm.oPL(c.backward(NPm.PL(l)))
+    for a, b in zip(l, back):
+        if not np.allclose(U @ D.op(*b) @ U.conj().T, D.op(*a)):
+            return {'kind': 'oracle', 'where': 'np:named gate %d on %s in a %s circuit (backward)' % (nm, qs, mode), 'observed': b, 'expected': 'U^dagger P U', 'operand': a, 'tags': ['placed', mode]}
+    return None
+
+
 def c_C_group(ctx, args):
     """through the implementation: 24 pairwise different valid gates, closed under compose and inverse"""
     I = impl('np').OPS
@@ -130,7 +162,7 @@ def c_C_roundtrip(ctx, args):
     return None
 
 
-CHECKS = {'C_roundtrip': c_C_roundtrip, 'table_corr': c_table_corr, 'action': c_action, 'C_group': c_C_group, 'guards': c_guards, 'ctor_fresh': __import__('props.C17', fromlist=['c_ctor_fresh']).c_ctor_fresh}
+CHECKS = {'placed': c_placed, 'C_roundtrip': c_C_roundtrip, 'table_corr': c_table_corr, 'action': c_action, 'C_group': c_C_group, 'guards': c_guards, 'ctor_fresh': __import__('props.C17', fromlist=['c_ctor_fresh']).c_ctor_fresh}
 
 
 def run(ctx):
@@ -147,6 +179,14 @@ def run(ctx):
                 do(ctx, 'action', [nm, [q], N], nontrivial=('a', nm, q, N))
         for c, t in itertools.permutations(range(N), 2):
             do(ctx, 'action', [5, [c, t], N], nontrivial=('a', 5, c, t, N), sample=(N == 3 and c > t))
+    for N in range(1, 4):
+        for mode in ('plain', 'layers', 'compiled', 'compiled_copy', 'general'):
+            for nb in (0, 1):
+                for nm in (0, 1, 2, 3, 4):
+                    q = rng.randrange(N)
+                    do(ctx, 'placed', [nm, [q], N, mode, nb], nontrivial=('pl', nm, q, N, mode, nb))
+                for c, t in itertools.permutations(range(N), 2):
+                    do(ctx, 'placed', [5, [c, t], N, mode, nb], nontrivial=('pl', 5, c, t, N, mode, nb))
     for k in range(24):
         for N, q in ((1, 0), (2, 1), (3, 1)):
             for mode in ('gate', 'circuit', 'compiled', 'copy', 'used_copy'):
